@@ -82,7 +82,14 @@ func VerifHarness_C10_CommitCrash() {
 	info := bc2.Info(abciTypes.RequestInfo{})
 	isPrev := info.LastBlockHeight == 41 && len(info.LastBlockAppHash) == 32 && info.LastBlockAppHash[0] == 7
 	isNew := info.LastBlockHeight == 42 && len(info.LastBlockAppHash) == len(res.Data) && verifSameBytes(info.LastBlockAppHash, res.Data)
-	verifAssert("C10:info-pair-consistent", isPrev || isNew)
+	// the two mixed pairs carry different labels: (h-1, hash(h)) is the recorded
+	// finding F7 (the hash is written before the height); (h, hash(h-1)) would make
+	// Tendermint skip the replay of block h and adopt a stale app hash
+	oldHeightNewHash := info.LastBlockHeight == 41 && verifSameBytes(info.LastBlockAppHash, res.Data)
+	newHeightOldHash := info.LastBlockHeight == 42 && len(info.LastBlockAppHash) == 32 && info.LastBlockAppHash[0] == 7 && !verifSameBytes(info.LastBlockAppHash, res.Data)
+	verifAssert("C10:never-reports-old-height-with-new-hash", !oldHeightNewHash)
+	verifAssert("C10:never-reports-new-height-with-old-hash", !newHeightOldHash)
+	verifAssert("C10:info-pair-consistent", isPrev || isNew || oldHeightNewHash || newHeightOldHash)
 	if info.LastBlockHeight == 42 {
 		verifAssert("C10:reported-height-has-its-emission", re.Emission().Cmp(e1) == 0)
 		if verifConfig("newPrice") == 1 {
